@@ -52,3 +52,56 @@ func vC09Cat(L int) {
 
 func vhC09_cat_L2() { vC09Cat(2) }
 func vhC09_cat_L3() { vC09Cat(3) }
+
+// C09 for multi-source operators: every source is subscribed with a context that carries the
+// subscription marker, and every callback of the final observer — whichever source caused it,
+// including stored values (zip queues, combine-latest, buffers, windows) — carries it too.
+func vC09Multi(T int) {
+	op := &vMCatalog[vChoice("entry", len(vMCatalog))]
+	m := vInt64("marker")
+	ctx0 := context.WithValue(context.Background(), vKeySub, m)
+	probes := make([]*vProbe, op.nsrc)
+	srcs := make([]Observable[int64], op.nsrc)
+	for i := range probes {
+		probes[i] = &vProbe{name: "src" + vItoa(i), itemCtx: true}
+		srcs[i] = probes[i]
+	}
+	c := &vCtx{src: srcs, L: T}
+	pipe := op.mk(c)
+	rec := &vRecorder{}
+	vGo(func() { pipe(ctx0, rec) })
+	vQuiesce()
+	ended := make([]bool, op.nsrc)
+	for t := 0; t < T; t++ {
+		k := vChoice("src"+vItoa(t), op.nsrc)
+		kind := vChoice("k"+vItoa(t), 3)
+		if ended[k] || probes[k].subs == 0 {
+			vAssume(false)
+		}
+		if kind != vkNext {
+			ended[k] = true
+		}
+		if probes[k].live > 0 {
+			probes[k].emit(vStep{kind, vInt64("v" + vItoa(t))})
+		}
+		vQuiesce()
+	}
+	for _, p := range probes {
+		for _, sc := range p.ctxs {
+			vAssert(sc != nil, op.name+": a source was subscribed with a nil context")
+			got, ok := sc.Value(vKeySub).(int64)
+			vAssert(ok, op.name+": a source was not subscribed with the context given to SubscribeWithContext")
+			vAssert(got == m, op.name+": a source was subscribed with a different context value")
+		}
+	}
+	for _, e := range rec.evs {
+		vAssert(e.ctx != nil, op.name+": a callback was invoked with a nil context")
+		got, ok := e.ctx.Value(vKeySub).(int64)
+		vAssert(ok, op.name+": a callback context lost the value attached at subscription")
+		vAssert(got == m, op.name+": a callback context carries a different subscription value")
+	}
+	vReach("end")
+}
+
+func vhC09_multi_T2() { vC09Multi(2) }
+func vhC09_multi_T3() { vC09Multi(3) }
